@@ -47,6 +47,12 @@ def info(prop):
                         "real writer/reader functions with marker strings, every format and name length: proved for all numeric values that fit. "),
         "rule": "deductive: one obligation per (function, clause, format, velocities, name length)",
     }
+    from . import d13_writer_vc as D
+    h = D.deductive_info()
+    base["functions"] = base["functions"] + h["functions"]
+    base["stubs"] = base["stubs"] + h["stubs"]
+    base["assumptions"] = base["assumptions"] + h["assumptions"]
+    base["explanation"] = base["explanation"] + h["explanation"]
     return _merge.merged_info(base, b13_grofile)
 
 
@@ -261,7 +267,8 @@ def task_layout(tier, part, nparts):
 
 def tasks(prop, tier, seed):
     nparts = 8
-    t = [("wrap/pyvc", task_wrap, (seed,), 300.0)]
+    from . import d13_writer_vc as D
+    t = [("wrap/pyvc", task_wrap, (seed,), 300.0)] + list(D.deductive_tasks(prop, tier, seed))
     t += [(f"layout/part{p}", task_layout, (tier, p, nparts), 900.0) for p in range(nparts)]
     t += b13_grofile.bounded_tasks(prop, tier, seed)
     return t
@@ -270,6 +277,20 @@ def tasks(prop, tier, seed):
 def replay(prop, cex):
     if str(cex.get("fn", "")).startswith("b13:"):
         return b13_grofile.replay(prop, cex)
+    if cex.get("kind") == "vc" and cex.get("fn") == "d13:vc":
+        # a failed obligation of the writer's layout invariant: look for a written file that does not read back, in the bounded scope
+        for name, fn, args, _lim in b13_grofile.bounded_tasks(prop, "quick", 0)[:6]:
+            try:
+                obs = fn(*args)
+            except Exception:
+                continue
+            for o in obs:
+                if o.get("status") == "refuted" and o.get("kind") != "guard" and o.get("cex"):
+                    r = b13_grofile.replay(prop, o["cex"])
+                    if r and r.get("reproduced"):
+                        r["note"] = f"failed obligation {cex.get('clause') or cex.get('signature')} manifests on a real written file"
+                        return r
+        return {"reproduced": False, "inputs": cex, "note": "no failing file found in the bounded scope"}
     P = _P()
     if cex.get("fn") == "wrap":
         n = int(cex["n"])
